@@ -248,6 +248,9 @@ func runCheck(r *propRun) int {
 		funcs = append(funcs, sk)
 		for n := range fr.Exec.notes {
 			notes[n] = true
+			if r.verbose && (strings.HasPrefix(n, "havoc:") || strings.HasPrefix(n, "inline:")) {
+				fmt.Printf("  note %s: %s\n", sk, n)
+			}
 		}
 		for _, o := range fr.Obligs {
 			asserts := append([]*Term{}, fr.Exec.assumps[:o.NAssump]...)
